@@ -832,3 +832,59 @@ Theorem big_refines_small tcp q0 evs : reachable tcp q0 (pl_run_history tcp q0 e
 Proof.
   unfold reachable, pl_run_history. apply (sched_fold pl_big_step evs sched_big_step).
 Qed.
+
+(* ====================================================================================== *)
+(* the end-of-life boundary under concurrency                                             *)
+(* ====================================================================================== *)
+(* one step either leaves the id counter and the assignment log alone, or (a successful addQueueC, only
+   possible while nextQid <= 65535) assigns exactly nextQid *)
+Lemma step_ids s l s' :
+  pl_step s l = Some s' ->
+  (pl_nextQid s' = pl_nextQid s /\ pl_alog s' = pl_alog s) \/
+  (pl_nextQid s <= 65535 /\ pl_nextQid s' = pl_nextQid s + 1 /\
+   exists t, pl_alog s' = (t, pl_nextQid s) :: pl_alog s).
+Proof.
+  destruct l; cbn [pl_step]; intros H;
+    repeat match type of H with
+           | context [match ?x with _ => _ end] => destruct x eqn:?; try discriminate
+           end;
+    try (inversion H; subst; clear H; left; split; reflexivity).
+  (* the successful addQueueC (with and without a reservation to give back) *)
+  all: inversion H; subst; clear H; right.
+  all: match goal with E : (65535 <? _) = false |- _ => apply N.ltb_ge in E end.
+  all: split; [assumption|].
+  all: match goal with |- context [?a mod 65536] => replace (a mod 65536) with a by (symmetry; apply N.mod_small; lia) end.
+  all: cbn; split; eauto.
+Qed.
+
+(* Once the counter has reached 65536 it stays there: under EVERY continuation — any number of threads,
+   any interleaving of Reserve / Status / addQueueC / replies / cancels / closes — no further wire id is ever
+   assigned (in particular none wraps to 0), and the pool sees the connection as unavailable. *)
+Theorem exhausted_forever tcp q0 s :
+  q0 <= 65536 -> reachable tcp q0 s -> pl_nextQid s = 65536 ->
+  forall ls s', pl_run ls s = Some s' ->
+    pl_nextQid s' = 65536 /\ pl_alog s' = pl_alog s /\ pl_status_available s' = false.
+Proof.
+  intros Hq R Hn ls. revert s R Hn. induction ls as [|l ls IH]; cbn [pl_run]; intros s R Hn s' Run.
+  - inversion Run; subst. repeat split; auto. unfold pl_status_available. rewrite Hn. apply N.leb_gt. lia.
+  - destruct (pl_step s l) as [s1|] eqn:E; [|discriminate].
+    assert (R1 : reachable tcp q0 s1) by (eapply reachable_run with (ls := [l]); eauto; cbn; rewrite E; reflexivity).
+    destruct (step_ids _ _ _ E) as [[N1 A1]|[Hle _]]; [|lia].
+    destruct (IH s1 R1 (eq_trans N1 Hn) s' Run) as (X1 & X2 & X3).
+    repeat split; auto. congruence.
+Qed.
+
+(* so: whoever calls addQueueC after that, however it got hold of the connection, gets EoL and no id *)
+Theorem add_after_exhaustion tcp q0 s :
+  q0 <= 65536 -> reachable tcp q0 s -> pl_nextQid s = 65536 ->
+  forall ls s' t th, pl_run ls s = Some s' -> pl_tget s' t = Some th -> pl_tpc th = PlPStart ->
+  exists s'' th', pl_step s' (PlLAdd t) = Some s'' /\
+    pl_tget s'' t = Some th' /\ pl_tpc th' = PlPReturned PlRErrEoL /\ pl_twid th' = None /\
+    pl_nextQid s'' = 65536 /\ pl_alog s'' = pl_alog s.
+Proof.
+  intros Hq R Hn ls s' t th Run G P.
+  destruct (exhausted_forever _ _ _ Hq R Hn _ _ Run) as (N' & A' & _).
+  pose proof (reachable_run _ _ _ _ _ R Run) as R'.
+  destruct (add_exhausted _ _ _ _ _ Hq R' N' G P) as (_ & s'' & th' & S & G' & P' & W' & N'' & A'' & _).
+  exists s'', th'. repeat split; auto. congruence.
+Qed.
